@@ -363,3 +363,9 @@ def run(ctx):
     ctx.ob(R7, ri.qual, "readinto reads through read(len(b))", "self.read(len(b))" in astq.text(ri.node))
     itf = m.method(HR, "__iter__")
     ctx.ob(R7, itf.qual, "iteration reads through stream(decode_content=True)", "self.stream(decode_content=True)" in astq.text(itf.node))
+
+    # ------------------------------------------------------------------ R8 shared with C13-R9
+    from .c13 import rule_chunk_state
+
+    rule_chunk_state(ctx)
+    ctx.rules["C13-R9"]["decides"] = "(shared with C13, here C12-R8) " + ctx.rules["C13-R9"]["decides"]
